@@ -176,7 +176,7 @@ func S2b(tier string, ext uint32, fees bool) *Scenario {
 		al.BatchPrices = []string{"0.5", "1", "3", "0.333333333333333333"}
 		bud = Budget{"update": 1, "bid": 4, "mod": 2, "block": 6, "tick": 1}
 	}
-	return scenFrom(fmt.Sprintf("S2b-batch-book-ext%d-%s", ext, fn), cfg, pre, bud, al, nil)
+	return scenFrom(fmt.Sprintf("S2b-batch-book-ext%d-%s", ext, fn), cfg, pre, bud, al, nil).tagged("ledger")
 }
 
 // S3: several concurrent auctions of both types sharing auctioneer, bidders and (crossed)
@@ -244,7 +244,7 @@ func S4(tier string, supply, capA, capB string, update bool) *Scenario {
 		al.ManyAmts = []string{"1", "3", "6"}
 		bud["bid"] = 4
 	}
-	return scenFrom(fmt.Sprintf("S4-orderbook-s%s-caps%s,%s-upd%v", supply, capA, capB, update), cfg, pre, bud, al, nil)
+	return scenFrom(fmt.Sprintf("S4-orderbook-s%s-caps%s,%s-upd%v", supply, capA, capB, update), cfg, pre, bud, al, nil).tagged("ledger")
 }
 
 func bookScenarios(tier string) []*Scenario {
@@ -492,6 +492,93 @@ func (s *Scenario) withMsgAddAllow() *Scenario {
 		}
 		s.Budget["msgallow"] = 1
 		s.Name += "+msgallow"
+	}
+	return s
+}
+
+// S1d / S2d: donations (I2). A third party sends coins straight to an escrow address at any moment;
+// exactness is then required of the remainder (C01's excess rule) and every sweep must be accounted
+// for (C02), and no block may fail because of them (C07).
+func S1d(tier string) *Scenario {
+	s := S1a(tier, true)
+	s.al.Creates = s.al.Creates[:0]
+	for _, sc := range [][]Sched{nil, sched(3, 4)} {
+		s.al.Creates = append(s.al.Creates, Op{Kind: "create_fixed", Signer: "auc1", StartPrice: "3", Sell: "10acoin", PayDenom: "bcoin", StartK: 1, EndK: 2, Sched: sc})
+	}
+	s.al.Donate = []Op{
+		{Kind: "donate", Signer: "donor", To: "sell", Coin: "1acoin"},
+		{Kind: "donate", Signer: "donor", To: "sell", Coin: "1bcoin"},
+		{Kind: "donate", Signer: "donor", To: "pay", Coin: "2bcoin"},
+		{Kind: "donate", Signer: "donor", To: "vest", Coin: "1bcoin"},
+	}
+	s.al.FixedAmts = []string{"7"}
+	s.al.AllowCaps = []string{"10"}
+	s.Budget = Budget{"create": 1, "allow": 1, "update": 0, "bid": 1, "cancel": 1, "block": 4, "tick": 0, "donate": 2}
+	if tier == "thorough" {
+		s.Budget = Budget{"create": 1, "allow": 1, "update": 0, "bid": 2, "cancel": 1, "block": 5, "tick": 1, "donate": 2}
+	}
+	s.Name = "S1d-fixed-donations"
+	return s
+}
+
+func S2d(tier string) *Scenario {
+	s := S2b(tier, 1, false)
+	s.al.Donate = []Op{
+		{Kind: "donate", Signer: "donor", To: "sell", Coin: "1acoin"},
+		{Kind: "donate", Signer: "donor", To: "pay", Coin: "2bcoin"},
+		{Kind: "donate", Signer: "donor", To: "pay", Coin: "1acoin"},
+		{Kind: "donate", Signer: "donor", To: "vest", Coin: "1bcoin"},
+	}
+	s.al.BatchPrices = []string{"0.5", "3"}
+	s.al.WorthAmts = []string{"7"}
+	s.al.ManyAmts = []string{"3"}
+	s.al.ModPrices, s.al.ModAmts = nil, nil
+	s.Budget = Budget{"update": 0, "bid": 2, "mod": 0, "block": 5, "donate": 2}
+	s.Name = "S2d-batch-donations"
+	return s
+}
+
+// S10: extremes. Prices 10^-18, 1, 10^18; amounts 1, 10^30, 2^200; balances to match. The point is
+// C07 (no block may panic or fail whatever was accepted) with C01/C02 riding along in exact big integers.
+func S10(tier string, batch bool) *Scenario {
+	huge := "1606938044258990275541962092341162602522202993782792835301376" // 2^200
+	big30 := "1000000000000000000000000000000"
+	bal := func() sdk.Coins { return coins(huge + "0acoin," + huge + "0bcoin") }
+	cfg := world.Config{Balances: map[string]sdk.Coins{"auc1": bal(), "bid1": bal(), "bid2": bal()}, Params: params("", "", 1)}
+	prices := []string{"0.000000000000000001", "1", "1000000000000000000"}
+	amts := []string{"1", big30, huge}
+	var pre []Op
+	name := "S10-extremes-fixed"
+	al := &Alphabet{Bidders: []string{"bid1", "bid2"}, MaxK: 4, BlockStops: []int{2, 3, 4}}
+	bud := Budget{"create": 1, "bid": 2, "block": 3}
+	if batch {
+		name = "S10-extremes-batch"
+		for _, supply := range []string{big30, huge} {
+			al.Creates = append(al.Creates, Op{Kind: "create_batch", Signer: "auc1", StartPrice: "1", MinPrice: "0.000000000000000001", Sell: supply + "acoin", PayDenom: "bcoin", StartK: 0, EndK: 2, MaxExt: 1, Rate: "0.5", Sched: sched(3, 4)})
+		}
+		al.BatchPrices = prices
+		al.WorthAmts = amts
+		al.ManyAmts = amts
+		al.ModPrices = []string{"1000000000000000000"}
+		bud["mod"] = 1
+	} else {
+		for _, p := range prices {
+			al.Creates = append(al.Creates, Op{Kind: "create_fixed", Signer: "auc1", StartPrice: p, Sell: huge + "acoin", PayDenom: "bcoin", StartK: 0, EndK: 2, Sched: sched(3, 4)})
+		}
+		al.FixedAmts = amts
+	}
+	s := scenFrom(name, cfg, pre, bud, al, nil)
+	// allow-list entries are created right after the auction (caps = the offered amount)
+	inner := s.Menu
+	s.Menu = func(st *ref.State, b Budget) []Op {
+		for _, a := range st.Auctions {
+			for _, bd := range []string{"bid1", "bid2"} {
+				if st.AllowedOf(a.ID, addrOf(bd)) == nil && (a.Status == ref.StatusStarted) {
+					return []Op{{Kind: "add_allowed", AID: a.ID, Bidder: bd, Max: a.SellAmt.String()}}
+				}
+			}
+		}
+		return inner(st, b)
 	}
 	return s
 }
